@@ -30,6 +30,10 @@ def exec_X18(t):
             k_ = next((i for i, c in enumerate(vs) if -2 ** 63 <= c < 2 ** 63), None)
             if k_ is not None:
                 v = [np.int64(c) if i == k_ else c for i, c in enumerate(vs)]
+            # ... or next to a NumPy unsigned one (D62: the pair is promoted to float64 whatever the size of the python integer)
+            k_ = next((i for i, c in enumerate(vs) if 0 <= c < 2 ** 64), None)
+            if k_ is not None and (n + vs[0]) % 2:
+                v = [np.uint64(c) if i == k_ else c for i, c in enumerate(vs)]
         if route == 'rawset' and len(vs) > 1 and (n + vs[-1]) % 2:
             # the codes are stored one by one into the elements of an existing wide object
             x = Fxp(np.zeros(len(vs), dtype=int), s, n, f, overflow=o)
@@ -39,6 +43,14 @@ def exec_X18(t):
                 return ['NESTED_ELEMENT']
         elif route == 'rawset' and len(vs) > 1:
             x = Fxp(np.zeros(len(vs), dtype=int), s, n, f, overflow=o); x.set_val(v, raw=True)
+        elif route == 'rawctor' and (n + vs[0] + len(vs)) % 3 == 1:
+            # built like a holder that has a past of its own (it overflowed and underflowed before): the new object's flags speak of
+            # its own store only
+            T = Fxp(None, s, n, f, overflow=o)
+            T.set_val(1 << (n + 3), raw=True)
+            T.set_val(-(1 << (n + 3)), raw=True)
+            assert T.status['overflow'] and T.status['underflow']
+            x = Fxp(v, like=T, raw=True)
         elif route == 'rawctor':
             x = Fxp(v, s, n, f, raw=True, overflow=o)
         elif route == 'rawset':
@@ -112,7 +124,8 @@ def generate(tier, rng):
                     # lists / tuples of Python integers: windows in which NumPy would pick a 64-bit or float carrier by itself
                     for _ in range(3 * reps):
                         win = lambda: rng.choice([rng.randint(1 << 63, (1 << 64) - 1), -rng.randint(1, 1 << 63), rng.randint(0, (1 << 63) - 1),
-                                                  (1 << 63) + 1, -1, rng.choice(vals), rng.randint(lo, hi)])
+                                                  (1 << 63) + 1, -1, rng.choice(vals), rng.randint(lo, hi),
+                                                  (1 << 62) + 1, (1 << 53) + 1, rng.randint(1 << 53, 1 << 63) | 1, 3])
                         vv = [win() for _ in range(rng.choice([2, 3]))]
                         if f > 0 and max(abs(x) for x in vv) >= (1 << (3 * n)):
                             continue
